@@ -8,7 +8,8 @@ import re
 
 import networkx as nx
 
-from lib import Unsupported, dump_mol, err_class, import_repo, order2, quiet
+from lib import Unsupported, dump_mol, err_class, import_repo, order2, quiet, stable_hash
+from lib import dump_template as lib_dump_template
 
 cgsmiles = import_repo()
 import pysmiles  # noqa: E402
@@ -71,7 +72,12 @@ def meta_request(graph):
 
 
 def frags_request(fragment_dict):
-    return [[name, dump_mol(g)] for name, g in fragment_dict.items()]
+    def in_key_order(g):
+        ks = list(g.nodes)
+        return all(isinstance(k, int) for k in ks) and ks == sorted(ks)
+    # templates from the package's own readers are numbered in insertion order: the canonical dump; a library built
+    # elsewhere is handed to the model in the order the resolver will iterate it
+    return [[name, dump_mol(g) if in_key_order(g) else lib_dump_template(g)] for name, g in fragment_dict.items()]
 
 
 def run_steps(resolver):
@@ -118,6 +124,51 @@ def run_steps(resolver):
 def resolver_from_string(s, last_all_atom=True, legacy=True):
     with quiet():
         return MoleculeResolver.from_string(s, last_all_atom=last_all_atom, legacy=legacy)
+
+
+def reorder_template(g, rng):
+    """the same fragment graph with other node keys, inserted in another order (a library built outside the package)"""
+    import networkx as nx
+    old = list(g.nodes)
+    keys = rng.sample(range(1, 3 * len(old) + 2), len(old))
+    m = dict(zip(old, keys))
+    h = nx.Graph()
+    for n in rng.sample(old, len(old)):
+        h.add_node(m[n], **copy.deepcopy(g.nodes[n]))
+    edges = list(g.edges(data=True))
+    rng.shuffle(edges)
+    for a, b, d in edges:
+        if rng.random() < 0.5:
+            a, b = b, a
+        h.add_edge(m[a], m[b], **copy.deepcopy(d))
+    for n, d in h.nodes(data=True):
+        # stereo references of a template are node keys
+        if 'ez_isomer' in d or 'rs_isomer' in d or 'ez_isomer_class' in d:
+            raise Unsupported('template with node references')
+    return h
+
+
+def resolver_for(case, last_all_atom=True, legacy=True):
+    """the resolver for a case through the constructor the case names: the whole string (default), the base string plus
+    the fragment libraries read separately, the base GRAPH plus the fragment string, or libraries whose template graphs
+    carry other keys in another insertion order"""
+    import re
+    import random
+    ctor = case.get('ctor', 'string')
+    s = case['s']
+    if ctor == 'string':
+        return resolver_from_string(s, last_all_atom=last_all_atom, legacy=legacy)
+    blocks = re.findall(r"\{[^\}]+\}", s)
+    with quiet():
+        if ctor == 'graph':
+            from cgsmiles.read_cgsmiles import read_cgsmiles
+            return MoleculeResolver.from_graph('.'.join(blocks[1:]), read_cgsmiles(blocks[0]),
+                                               last_all_atom=last_all_atom, legacy=legacy)
+        libs = MoleculeResolver.read_fragment_strings(blocks[1:], last_all_atom=last_all_atom)
+        if ctor == 'reordered':
+            rng = random.Random(stable_hash(s))
+            libs = [{name: reorder_template(g, rng) for name, g in lib_.items()} for lib_ in libs]
+        return MoleculeResolver.from_fragment_dicts(blocks[0], libs, last_all_atom=last_all_atom, legacy=legacy)
 
 
 def model_request(step):
